@@ -54,7 +54,7 @@ func (p sessProp) Key(inp interface{}) (string, bool) {
 		fmt.Fprintf(&b, "[%s%v", c.Cert, c.NoDial)
 		for _, g := range c.Groups {
 			for _, it := range g {
-				b.WriteString(it.T + it.Typ + it.Pl + it.Res + it.NS + fmt.Sprint(it.TLS, it.Sess, it.SM, it.Err) + ",")
+				b.WriteString(it.T + it.Typ + it.Pl + it.Res + it.NS + it.Open + fmt.Sprint(it.TLS, it.Sess, it.SM, it.Err, it.KeepID, it.Jid == "") + ",")
 				n++
 			}
 		}
@@ -152,8 +152,9 @@ func (p sessProp) Oracle(inp interface{}, obs Sx) (string, string) {
 		}
 		// ---- C03: success iff the script completes (independent recogniser)
 		want, enabledRes := scriptCompletes(in, c, prevID, smEnable)
-		if sawResume && resumeReply(c, expID) != "resumed-same" {
-			expID = "" // refused, mismatched, unexpected, cut: that id must never be presented again
+		if rr := resumeReply(c, expID); sawResume && rr != "resumed-same" && rr != "eof" && rr != "" {
+			expID = "" // refused, mismatched, unexpected, closed: that id must never be presented again
+			// (a connection that goes away before any answer has refused nothing: the id stays valid)
 		}
 		if want && enabledRes != "" {
 			expID = enabledIDOf(c)
@@ -202,14 +203,27 @@ func (p sessProp) Oracle(inp interface{}, obs Sx) (string, string) {
 				if !sawBind {
 					return fmt.Sprintf("conn %d: resumption refused but no bind request followed", ci), "refused-no-bind"
 				}
+			case rep == "eof" || rep == "":
+				// the connection went away before any answer: nothing was refused, the state held must survive
+				if ok || sawBind {
+					return fmt.Sprintf("conn %d: no answer to <resume/> (connection cut) and yet ok=%v bind=%v", ci, ok, sawBind), "unanswered-continued"
+				}
+				if id != prevID || snap.L[2].Z != prevInb {
+					return fmt.Sprintf("conn %d: the connection was cut while the answer to <resume previd=%q h=%d/> was awaited - nothing was refused - and the client holds id %q, count %d afterwards", ci, prevID, prevInb, id, snap.L[2].Z), "unanswered-state-lost"
+				}
 			default:
 				if ok && !sawBind {
 					return fmt.Sprintf("conn %d: reply %q to <resume/> and the old session was continued", ci, rep), "stale-continued"
 				}
-				if rep != "" && (ok || id == prevID) && prevID != "" && !sawBind {
+				if (ok || id == prevID) && prevID != "" && !sawBind {
 					return fmt.Sprintf("conn %d: reply %q to <resume/>: stale state kept (id %q)", ci, rep, id), "stale-kept"
 				}
 			}
+		}
+		// ---- C11/C09: an attempt that fails before the client has asked anything (no <resume/>, no bind request:
+		// refused dial, features that never arrive, TLS, authentication, stream restart) leaves what is held alone
+		if !ok && !sawResume && !sawBind && prevID != "" && (id != prevID || snap.L[2].Z != prevInb) {
+			return fmt.Sprintf("conn %d: the attempt failed before the client had sent <resume/> or a bind request, and the client no longer holds what it held (id %q count %d before, id %q count %d after)", ci, prevID, prevInb, id, snap.L[2].Z), "failed-attempt-lost-state"
 		}
 		_ = sawAuth
 		// ---- C09: count reported during and after the traffic of this connection
@@ -338,6 +352,12 @@ func scriptCompletes(in sessIn, c sessConn, prevID string, smEnable bool) (bool,
 		if it == nil || it.T != t {
 			return nil
 		}
+		if t == "header" && it.Open == "other" {
+			return nil // the opening element of the other transport opens nothing here
+		}
+		if t == "iq" && it.KeepID {
+			return nil // an iq that does not carry the id of the request does not answer it
+		}
 		return it
 	}
 	if expect("header") == nil {
@@ -391,7 +411,7 @@ func scriptCompletes(in sessIn, c sessConn, prevID string, smEnable bool) (bool,
 	}
 	// the bind / session result is an IQ stanza of the stream: an element merely called iq in another namespace is not
 	b := expect("iq")
-	if b == nil || b.Typ != "result" || b.Pl != "bind" || b.NS != "" {
+	if b == nil || b.Typ != "result" || b.Pl != "bind" || b.NS != "" || b.Jid == "" {
 		return false, ""
 	}
 	if f.Sess == 1 {
@@ -476,6 +496,14 @@ func replyAlphabet(heldID string) []sItem {
 		// elements CALLED iq in a namespace that is not the stream's (type result, with the expected payload): unexpected elements
 		{T: "iq", Typ: "result", ID: "1", Pl: "bind", Jid: "user@" + srvDomain + "/f", NS: "urn:example:foreign"},
 		{T: "iq", Typ: "result", ID: "1", Pl: "none", NS: "jabber:server"},
+		// <iq type='result'/> that do not answer the pending request: a foreign id; the bind result sent once more
+		{T: "iq", Typ: "result", ID: "zz-foreign", KeepID: true, Pl: "bind", Jid: "user@" + srvDomain + "/k"},
+		{T: "iq", Typ: "result", ID: "@bind", KeepID: true, Pl: "bind", Jid: "user@" + srvDomain + "/bound"},
+		{T: "iq", Typ: "result", ID: "zz-foreign", KeepID: true, Pl: "none"},
+		// the result of resource binding without the bound JID
+		{T: "iq", Typ: "result", ID: "1", Pl: "bind"},
+		// the opening element of the other transport
+		{T: "header", ID: "sid1", Open: "other"},
 		{T: "message", N: 1}, {T: "presence", N: 2},
 		{T: "enabled", ID: "new1", Res: "true"}, {T: "enabled", ID: "new2", Res: "false"}, {T: "enabled", ID: "new3"}, {T: "enabled", ID: "new4", Res: "maybe"},
 		{T: "resumed", ID: heldID}, {T: "resumed", ID: "someone-else"},
@@ -879,14 +907,17 @@ func genC11long(r *rand.Rand, tier string) []interface{} {
 				held = newID
 			case held != "": // anything else: the state is gone and the connection fails
 				g, labels := goodConn(in, shape{smOffer: true}, held, "failed", newID, "true")
+				b := bad[r.Intn(len(bad))]
 				for gi, l := range labels {
 					if l == "resume" {
-						g = mutate(g, gi, 0, bad[r.Intn(len(bad))])
+						g = mutate(g, gi, 0, b)
 						break
 					}
 				}
 				conns = append(conns, sessConn{Groups: g})
-				held = ""
+				if b.T != "eof" { // a cut connection refuses nothing: the id stays good
+					held = ""
+				}
 			default: // nothing held: a fresh stream-managed session
 				g, _ := goodConn(in, shape{smOffer: true, sess: r.Intn(2)}, "", "", newID, "true")
 				conns = append(conns, sessConn{Groups: g, Traffic: r.Intn(4)})
@@ -908,8 +939,9 @@ func init() {
 // failedAttempt: a connection attempt that fails, of the given kind, for a client that holds the id held (or none):
 // "dial" nobody listens; "tls" STARTTLS offered, the certificate is not trusted (the handshake fails); "auth" the
 // password is rejected; "restart" the connection is cut where the stream header after authentication is awaited;
-// "nofeatures" a stanza arrives where the first features element is awaited (NewSession gives the Session object up,
-// and with it whatever the client held). All but the last leave the client's stream-management state alone.
+// "nofeatures" a stanza arrives (or the connection is cut) where the first features element is awaited (NewSession
+// returns no session; the Session object of the earlier connections stays); "resume-cut" the connection is cut where
+// the answer to <resume/> is awaited. All of them leave the client's stream-management state alone.
 func failedAttempt(in sessIn, kind string, held string) sessConn {
 	if kind == "dial" {
 		return sessConn{NoDial: true}
@@ -934,12 +966,20 @@ func failedAttempt(in sessIn, kind string, held string) sessConn {
 		return sessConn{Groups: mutate(g, at("auth"), 0, sItem{T: "saslfailure"})}
 	case "restart":
 		return sessConn{Groups: mutate(g, at("open3"), 0, sItem{T: "eof"})}
-	default: // nofeatures
+	case "resume-cut": // the connection is cut where the answer to <resume/> is awaited (when there is one to await)
+		if held == "" {
+			return sessConn{Groups: mutate(g, at("open3"), 0, sItem{T: "eof"})}
+		}
+		return sessConn{Groups: mutate(g, at("resume"), 0, sItem{T: "eof"})}
+	default: // nofeatures: NewSession returns no session; the Session object of the earlier connections is kept
+		if kind == "nofeatures" && len(g) > 0 {
+			return sessConn{Groups: mutate(g, at("open1"), 1, sItem{T: []string{"message", "eof"}[len(held)%2], N: 1})}
+		}
 		return sessConn{Groups: mutate(g, at("open1"), 1, sItem{T: "message", N: 1})}
 	}
 }
 
-var keepingFailures = []string{"dial", "tls", "auth", "restart"}
+var keepingFailures = []string{"dial", "tls", "auth", "restart", "nofeatures", "resume-cut"}
 
 // genC09sess: stream-managed sessions with traffic, enabled with and without
 // resumption granted, continued over 1-3 resumptions (C09's "continued across a resumption").
@@ -994,15 +1034,6 @@ func genC09sess(r *rand.Rand, tier string) []interface{} {
 				for f := 1 + r.Intn(2); f > 0; f-- {
 					conns = append(conns, failedAttempt(in, keepingFailures[r.Intn(len(keepingFailures))], held))
 				}
-			} else if r.Intn(12) == 0 {
-				// ... or one that makes the client give up its Session object: what was held is gone, the next
-				// connection starts a new stream-managed session, counting from zero
-				conns = append(conns, failedAttempt(in, "nofeatures", held))
-				newHeld := fmt.Sprintf("%s-d%d", held, k)
-				g2, _ := goodConn(in, shape{smOffer: true}, "", "", newHeld, "true")
-				conns = append(conns, sessConn{Groups: g2, Traffic: r.Intn(7)})
-				held = newHeld
-				continue
 			}
 			if r.Intn(4) == 0 {
 				// a stream WITHOUT stream management in between (the server does not offer it): a plain session is
